@@ -169,8 +169,11 @@ class Obligation:
 class Interp:
     """Abstract interpreter for one MIR body."""
 
-    def __init__(self, mir: dict, fn_name: str, self_fields: List[str], table_fn: Optional[str], own_methods: Dict[str, str]):
+    def __init__(self, mir: dict, fn_name: str, self_fields: List[str], table_fn: Optional[str], own_methods: Dict[str, str],
+                 sym_const: Optional[Tuple[int, Lin]] = None):
         self.mir = mir
+        # symbolic length: the integer constant equal to the witness' N is read as the symbol N
+        self.sym_const = sym_const
         self.fn = fn_name
         self.blocks = {b["id"]: b for b in mir["blocks"]}
         self.locals = {l["id"]: l for l in mir["locals"]}
@@ -275,6 +278,8 @@ class Interp:
             return self.read_place(st, o["place"])
         c = o["c"]
         if "int" in c:
+            if self.sym_const is not None and int(c["int"]) == self.sym_const[0] and c.get("const_ty") == "usize":
+                return ("lin", self.sym_const[1])
             return ("lin", Lin.const(int(c["int"])))
         if "bool" in c:
             return ("bool", bool(c["bool"]))
